@@ -3,7 +3,7 @@ import TunnoxModel.Spec.C10
 /-!
 Line protocol for C10.
 
-  st  <tail> rw <0|1> [tk <nil | n (<keyhex> <a|c>)*n> pre <m>] me <hex> ev <n> <event>*n ch <k> <size>*k rd <m> <size>*m
+  st  <tail> rw <0|1> [tk <nil | n (<keyhex> <a|c>)*n> pre <m>] me <hex> ev <n> <event>*n ch <k> <size>*k rd <m> <size>*m [rv <n> <event>*n rr <k> <size>*k | cut <k>]
         event:  w <len> <seed> | cw | cl | f <tidhex> <ty> <len> <seed>
       obs:  wr <k> (ok:<n>|closed|err:<n>)*k rd <j> (x:<n>|d:<hex>|eof|err:<kind>|fuel)*j rb <0|1> wb <0|1>
             (x:<n> = the next n bytes of the case's reference stream, see `refStream`)
@@ -14,8 +14,11 @@ Line protocol for C10.
 
   pl  <same tokens as st>   the first <pre> events are residual frames on an idle pooled connection
       obs:  reused <0|1> <st observation of the remaining events>
-  fw  me <hex> up <len> <seed> down <len> <seed> cs <k> <size>*k
-      obs:  up <hex> down <hex> done <0|1>
+  tm  <tunnel id hex> <node id hex>     Encode/DecodeTargetReadyMessage;  obs: ok <tidhex> <nodehex> | invalid
+  ls  tid <hex> node <hex> br <hex> ty <n> hid <hex> pay <len> <seed> back <len> <seed> co <0|1|2>
+      obs:  fwd <0|1> up <hex> down <hex>          (the real CrossNodeListener.handleConnection)
+  fw  me <hex> up <len> <seed> down <len> <seed> cs <k> <size>*k [opt <ct> <cl> <ord>]
+      obs:  up <hex> down <hex> done <0|1> cnt <sent|na> <recv|na> closes <n|na>
 
 Payloads are `(len, seed)` pairs expanded by `genBytes` (same function in the Go harness).
 -/
@@ -92,6 +95,8 @@ structure StCase where
   evs : List Ev
   chunks : List Nat
   reads : List Nat
+  rv : Option (List Ev × List Nat) := none   -- reverse phase: B's events, A's read sizes
+  cutAt : Option Nat := none                 -- the connection is lost after this many bytes of the wire
 
 def parseStRest (tail : Tail) (rw : Bool) (trk : Option (List (Bytes × Bool))) (pre : Nat) : List String → Option StCase
   | "me" :: me :: "ev" :: n :: ts => do
@@ -99,8 +104,17 @@ def parseStRest (tail : Tail) (rw : Bool) (trk : Option (List (Bytes × Bool))) 
     let n ← n.toNat?
     let (evs, ts) ← parseEvents n ts
     let (ch, ts) ← parseSizes "ch" ts
-    let (rd, _) ← parseSizes "rd" ts
-    pure ⟨tail, rw, trk, pre, me, evs, ch, rd⟩
+    let (rd, ts) ← parseSizes "rd" ts
+    match ts with
+    | "rv" :: k :: ts => do
+      let k ← k.toNat?
+      let (rev, ts) ← parseEvents k ts
+      let (rr, _) ← parseSizes "rr" ts
+      pure ⟨tail, rw, trk, pre, me, evs, ch, rd, some (rev, rr), none⟩
+    | ["cut", k] => do
+      let k ← k.toNat?
+      pure ⟨tail, rw, trk, pre, me, evs, ch, rd, none, some k⟩
+    | _ => pure ⟨tail, rw, trk, pre, me, evs, ch, rd, none, none⟩
   | _ => none
 
 /-- `tk nil | tk <n> (<keyhex> <a|c>)*n`, then `pre <m>` (the receiving stream is created only after the
@@ -306,6 +320,8 @@ structure FwCase where
   up : Bytes
   down : Bytes
   cs : List Nat
+  ct : Bool    -- config has traffic counters
+  cl : Bool    -- config has a LocalConnCloser
 
 def parseFw : List String → Option FwCase
   | "me" :: me :: "up" :: ul :: us :: "down" :: dl :: ds :: ts => do
@@ -314,22 +330,80 @@ def parseFw : List String → Option FwCase
     let us ← us.toNat?
     let dl ← dl.toNat?
     let ds ← ds.toNat?
-    let (cs, _) ← parseSizes "cs" ts
-    pure ⟨me, genBytes ul us, genBytes dl ds, cs⟩
+    let (cs, ts) ← parseSizes "cs" ts
+    -- optional: opt <ct> <cl> <ord>   (ord = which direction finishes first: harness timing only)
+    match ts with
+    | "opt" :: ct :: cl :: _ => pure ⟨me, genBytes ul us, genBytes dl ds, cs, ct == "1", cl == "1"⟩
+    | _ => pure ⟨me, genBytes ul us, genBytes dl ds, cs, false, false⟩
   | _ => none
 
 def fwObsStr (o : FwObs) : String :=
-  s!"up {hexOfBytes o.up} down {hexOfBytes o.down} done {if o.done then 1 else 0}"
+  let cnt := match o.cnt with | some (a, b) => s!"{a} {b}" | none => "na na"
+  let cl := match o.closes with | some n => s!"{n}" | none => "na"
+  s!"up {hexOfBytes o.up} down {hexOfBytes o.down} done {if o.done then 1 else 0} cnt {cnt} closes {cl}"
 
 def parseFwObs : List String → Option FwObs
-  | ["up", u, "down", d, "done", x] => do
+  | ["up", u, "down", d, "done", x, "cnt", a, b, "closes", c] => do
     let u ← bytesOfHex u
     let d ← bytesOfHex d
-    if x == "0" || x == "1" then pure ⟨u, d, x == "1"⟩ else none
+    let cnt ← (if a == "na" && b == "na" then some none else do
+      let a ← a.toNat?
+      let b ← b.toNat?
+      pure (some (a, b)))
+    let cl ← (if c == "na" then some none else c.toNat?.map some)
+    if x == "0" || x == "1" then pure ⟨u, d, x == "1", cnt, cl⟩ else none
   | _ => none
+
+structure LsCase where
+  tid : Bytes
+  node : Bytes
+  br : Bytes
+  ty : Nat
+  hid : Bytes
+  pay : Bytes
+  back : Bytes
+
+def parseLs : List String → Option LsCase
+  | ["tid", t, "node", n, "br", b, "ty", ty, "hid", h, "pay", pl, ps, "back", bl, bs, "co", _] => do
+    let t ← bytesOfHex t
+    let n ← bytesOfHex n
+    let b ← bytesOfHex b
+    let ty ← ty.toNat?
+    let h ← bytesOfHex h
+    let pl ← pl.toNat?
+    let ps ← ps.toNat?
+    let bl ← bl.toNat?
+    let bs ← bs.toNat?
+    pure ⟨t, n, b, ty, h, genBytes pl ps, genBytes bl bs⟩
+  | _ => none
+
+/-- The model of the `ls` scenario: the target side's wire through `runListener` (any chunking gives the
+same result, `C10_chunk_indep`/`C10_listener_exact`; 4 KiB chunks here), the answer raw. -/
+def modelLs (c : LsCase) : Bool × Bytes × Bytes :=
+  match writeFrame ⟨tunnelIDFromString c.hid, c.ty, encodeTargetReady c.tid c.node⟩ with
+  | none => (false, [], [])
+  | some w =>
+    match runListener c.br ⟨cutWire [] (w ++ c.pay), .eof⟩ with
+    | some up => (true, up, c.back)
+    | none => (false, [], [])
+
+def lsObsStr (o : Bool × Bytes × Bytes) : String :=
+  s!"fwd {if o.1 then 1 else 0} up {hexOfBytes o.2.1} down {hexOfBytes o.2.2}"
+
+def tmObsStr : Option (Bytes × Bytes) → String
+  | some (t, n) => s!"ok {hexOfBytes t} {hexOfBytes n}"
+  | none => "invalid"
 
 def runModel (ts : List String) : String :=
   match ts with
+  | ["tm", t, n] =>
+    match bytesOfHex t, bytesOfHex n with
+    | some t, some n => tmObsStr (decodeTargetReady (encodeTargetReady t n))
+    | _, _ => "bad-case"
+  | "ls" :: rest =>
+    match parseLs rest with
+    | some c => lsObsStr (modelLs c)
+    | none => "bad-case"
   | "pl" :: rest =>
     match parseSt rest with
     | some c =>
@@ -338,11 +412,20 @@ def runModel (ts : List String) : String :=
     | none => "bad-case"
   | "fw" :: rest =>
     match parseFw rest with
-    | some c => fwObsStr (runForward c.me (chunkBy c.cs c.up) c.down)
+    | some c => fwObsStr (runForward c.me (chunkBy c.cs c.up) c.down c.ct c.cl)
     | none => "bad-case"
   | "st" :: rest =>
     match parseSt rest with
-    | some c => stObsStr c.me c.evs (modelSt c)
+    | some c =>
+      match c.rv with
+      | none =>
+        match c.cutAt with
+        | none => stObsStr c.me c.evs (modelSt c)
+        | some k => stObsStr c.me c.evs
+            (runStreamCut (trackerOf c.trk) c.me c.evs (cutWire c.chunks) c.tail c.rw c.reads k)
+      | some (rev, rr) =>
+        let o := runDuplex (trackerOf c.trk) c.me c.evs (cutWire c.chunks) c.tail c.rw c.reads rev rr
+        stObsStr c.me c.evs o.fwd ++ " rv " ++ stObsStr c.me rev o.rev
     | none => "bad-case"
   | "dec" :: rest =>
     match parseDec rest with
@@ -357,6 +440,27 @@ def runModel (ts : List String) : String :=
 /-- The theorem's predicate on an observation; anything unparsable (panic, timeout, …) is `false`. -/
 def runHolds (caseToks obsToks : List String) : String :=
   match caseToks with
+  | "ls" :: rest =>
+    match parseLs rest, obsToks with
+    | some c, ["fwd", f, "up", u, "down", d] =>
+      match bytesOfHex u, bytesOfHex d with
+      | some u, some d =>
+        if f != "0" && f != "1" then "false"
+        else boolStr (holdsLs c.tid c.node c.br c.ty c.hid c.pay c.back (f == "1", u, d))
+      | _, _ => "false"
+    | some _, _ => "false"
+    | none, _ => "bad-case"
+  | ["tm", t, n] =>
+    match bytesOfHex t, bytesOfHex n with
+    | some t, some n =>
+      match obsToks with
+      | ["ok", a, b] =>
+        match bytesOfHex a, bytesOfHex b with
+        | some a, some b => boolStr (holdsTm t n (some (a, b)))
+        | _, _ => "false"
+      | ["invalid"] => boolStr (holdsTm t n none)
+      | _ => "false"
+    | _, _ => "bad-case"
   | "pl" :: rest =>
     match parseSt rest, obsToks with
     | some c, "reused" :: b :: ots =>
@@ -368,15 +472,25 @@ def runHolds (caseToks obsToks : List String) : String :=
     | none, _ => "bad-case"
   | "fw" :: rest =>
     match parseFw rest, parseFwObs obsToks with
-    | some c, some o => boolStr (holdsFw c.up c.down o)
+    | some c, some o => boolStr (holdsFw c.up c.down c.ct c.cl o)
     | some _, none => "false"
     | none, _ => "bad-case"
   | "st" :: rest =>
     match parseSt rest with
     | some c =>
-      match parseStObs (refStream c.me c.evs) obsToks with
-      | some o => boolStr (holdsStream c.me c.evs c.tail c.reads o)
-      | none => "false"
+      match c.rv with
+      | none =>
+        match parseStObs (refStream c.me c.evs) obsToks with
+        | some o =>
+          match c.cutAt with
+          | none => boolStr (holdsStream c.me c.evs c.tail c.reads o)
+          | some _ => boolStr (holdsCut c.me c.evs c.reads o)
+        | none => "false"
+      | some (rev, rr) =>
+        match parseStObs (refStream c.me c.evs) (obsToks.takeWhile (· != "rv")),
+              parseStObs (refStream c.me rev) ((obsToks.dropWhile (· != "rv")).drop 1) with
+        | some f, some r => boolStr (holdsDuplex c.me c.evs c.tail c.rw c.reads rev rr ⟨f, r⟩)
+        | _, _ => "false"
     | none => "bad-case"
   | "dec" :: rest =>
     match parseDec rest, parseDecObs obsToks with
